@@ -203,6 +203,9 @@ def build(name, seed):
         if name == "LZCompressionVectorizer":
             c.params = {"max_dict_size": r.choice([2, 3, 5, 64, 65536]), "max_columns": r.choice([None, None, 2, 8, 65536]),
                         "random_state": r.choice([None, 0, 7])}
+            if c.params["max_columns"] is not None and c.params["random_state"] is None:
+                c.params["random_state"] = 3     # an unseeded hash differs between two fits by design
+
             c.make = lambda: V.LZCompressionVectorizer(**c.params)
         else:
             c.params = {"max_vocab_size": r.choice([2, 3, 5, 20, 10000]), "min_token_occurrence": r.choice([1, 2, 3]),
